@@ -112,7 +112,7 @@ def main():
             f"distinct_nontrivial={rec.distinct_nontrivial} violations={len(real)} wall={wall:.1f}s"
         )
         if not real and rec.flaky:
-            print(f"HARNESS-ERROR property={pid}: hypothesis saw a failure that could not be reproduced (inconclusive): {rec.flaky[0]}")
+            print(f"HARNESS-ERROR property={pid}: inconclusive (a failure that could not be reproduced, or a task that did not finish): {rec.flaky[0]}")
             return 2
         if real:
             for i, v in enumerate(real[:5]):
